@@ -87,7 +87,8 @@ def run_c14(ctx):
         ever_used = set()
         for step in range(ctx.scale(12, 25)):
             remaining = sum(o.value for r, o in owned.items() if r not in w.spent_transaction_outputs)
-            mode = rng.choice(["small", "small", "half", "exact", "exact_fee", "over", "way_over", "tiny"])
+            mode = rng.choice(["small", "small", "half", "exact", "exact_fee", "prefix_exact", "prefix_exact", "over",
+                               "way_over", "tiny"])
             fee = rng.choice([0, 0, 1, 5, 1000])
             if mode == "small":
                 amount = rng.randrange(1, max(2, remaining // 10 + 1))
@@ -97,6 +98,22 @@ def run_c14(ctx):
                 amount, fee = max(1, remaining), 0
             elif mode == "exact_fee":
                 amount = max(1, remaining - fee)
+            elif mode == "prefix_exact":
+                # amount + fee equal to the value of the first k outputs the wallet will meet
+                bal = cs.public_key_balances_by_hash[head]
+                order_ = []
+                for pk_ in w.keypairs:
+                    b_ = bal.get(SECP256k1PublicKey(pk_))
+                    if b_ is not None:
+                        order_ += [r for r in b_.output_references if r not in w.spent_transaction_outputs]
+                if not order_:
+                    continue
+                k_ = rng.randrange(1, len(order_) + 1)
+                tot_ = sum(utxo[r].value for r in order_[:k_])
+                fee = rng.choice([1, 2, 5]) if tot_ > 5 else 0
+                amount = tot_ - fee
+                if amount <= 0:
+                    continue
             elif mode == "over":
                 amount = remaining + 1
             elif mode == "way_over":
